@@ -521,7 +521,7 @@ class Timing:
             if v[0] == "comp" and v[1] == "list":
                 self._check_fold_comp(r, bf, ex[0], v, c, ("param", ps[1]), result)
                 continue
-            if not (v[0] == "call" and v[1][0] in ("closure", "func") and ".<locals>." in v[1][1]):
+            if not (v[0] == "call" and v[1][0] in ("closure", "func") and (ctx.prog.functions.get(v[1][1]) is not None)):
                 fail(r, ctx, bf, ex[0].node, f"dispatch for {c.name} does not call a per-kind fold helper: {show(v)[:200]}")
                 continue
             helper = ctx.prog.functions.get(v[1][1])
